@@ -16,7 +16,8 @@ META = {
             "is not empty, a notification is pending or the in-flight push() will answer 'notify'; an idle consumer without pending "
             "notification has blocked=true, signal=false, so the next push into the empty queue answers true; when both processes have "
             "ended nothing is left in the queue and every accepted value was delivered once, in order; Full is thrown only when "
-            "capacity items are queued; theSize never wraps. The model is tied to the code by running the extracted model and the "
+            "capacity items are queued; theSize never wraps; (3) every run completes: after any schedule the round-robin continuation ends "
+            "with the consumer asleep, nothing pending, and (under the index hypothesis) popped values = pushed values. The model is tied to the code by running the extracted model and the "
             "real push()/pop()/clearSignal() (Queue.h instantiated in the harness, Queue.cc compiled unmodified from the working tree, "
             "both against the scheduler-controlled std::atomic of harness/sched_atomic.h, the memcpy() of Queue.h given a scheduling "
             "point of its own) on the same schedules and diffing events, final fields and a final single-threaded drain.",
